@@ -38,3 +38,11 @@ reg('C06', 'runtime monitoring: exception-type sanitizer at the compile() bounda
     'exception type and site.',
     'Trusted: the list of documented outcomes in ASSUMPTIONS (RecursionError only at nesting >= 40, nesting = '
     'parentheses + combinator chain/3); CPU-budget exhaustion is handed to C07, not judged.')
+reg('C07', 'runtime monitoring: CPU-time budget and growth-ratio monitor over synthesised pumped input families',
+    'Bounded restatement of "polynomial": for ~2*10^5 pumped families derived from every truncation of ~90 valid '
+    'constructs (and ~2.7k document-value families) the real compile()/match() is timed in CPU seconds under '
+    'ITIMER_VIRTUAL: < 2 s at <= 64 characters, growth <= 32x per doubling once >= 10 ms, never the 20 s budget up to '
+    '2k/8k characters (16k/128k for document data). Exponential regex backtracking shows as orders of magnitude, '
+    'independent of machine load.',
+    'Trusted: time.thread_time()/ITIMER_VIRTUAL as cost measure; families derivable from valid constructs only; '
+    'sub-exponential super-polynomial growth below the ratio threshold is out of reach.')
